@@ -149,9 +149,13 @@ func (rb *recordBuilder) validate(wr *warcRecord) (*Validation, error) {
 	}
 
 	validation := &Validation{}
-	_, err := validateHeader(rb.headers, wr.version, validation, wr.opts)
+	rt, err := validateHeader(rb.headers, wr.version, validation, wr.opts)
 	if err != nil {
 		return validation, err
+	}
+	if wr.recordType == 0 {
+		// The record type was given by a WARC-Type header instead of by NewRecordBuilder or SetRecordType
+		wr.recordType = rt
 	}
 
 	return validation, err
